@@ -244,6 +244,8 @@ SubFlat(flat, D, basis) ==
   LET m == Len(basis)
   IN  [k \in 1..m * m |-> flat[basis[((k - 1) \div m) + 1] * D + basis[((k - 1) % m) + 1] + 1]]
 
+TransposeFlat(flat, D) == [k \in 1..D * D |-> flat[((k - 1) % D) * D + ((k - 1) \div D) + 1]]
+
 \* the operator has the symmetry: no matrix element between different charges
 Conserves(flat, n, sym, regsA) ==
   LET D  == Pow2(n)
